@@ -19,6 +19,7 @@ package luamanager
 import (
 	"context"
 	"encoding/json"
+	"fmt"
 	"time"
 
 	lua "github.com/yuin/gopher-lua"
@@ -27,9 +28,17 @@ import (
 
 type LuaManager struct{}
 
-func (m *LuaManager) RunLuaScript(obj *unstructured.Unstructured, script string) (*lua.LState, error) {
-	l := lua.NewState(lua.Options{SkipOpenLibs: true})
+func (m *LuaManager) RunLuaScript(obj *unstructured.Unstructured, script string) (l *lua.LState, err error) {
+	l = lua.NewState(lua.Options{SkipOpenLibs: true})
 	defer l.Close()
+	// gopher-lua turns most Go panics raised while a script runs into errors, but not all
+	// of them (e.g. miscompiled bytecode can make the VM index out of range again while it
+	// formats the traceback). A broken script must fail its own rollout, not the process.
+	defer func() {
+		if r := recover(); r != nil {
+			err = fmt.Errorf("lua script panicked: %v", r)
+		}
+	}()
 	for _, pair := range []struct {
 		n string
 		f lua.LGFunction
@@ -60,7 +69,7 @@ func (m *LuaManager) RunLuaScript(obj *unstructured.Unstructured, script string)
 	l.SetContext(ctx)
 	objectValue := decodeValue(l, obj.Object)
 	l.SetGlobal("obj", objectValue)
-	err := l.DoString(script)
+	err = l.DoString(script)
 	return l, err
 }
 
